@@ -25,10 +25,15 @@ use std::panic::{catch_unwind, AssertUnwindSafe};
 use std::rc::Rc;
 use vharness::*;
 
+mod oracle_c05;
 mod oracle_c06;
 mod oracle_c17;
+mod oracle_c07;
+mod oracle_c18;
+mod script_c05;
+mod script_c18;
 mod step;
-use step::Step;
+use step::{CandView, Expect, Step};
 
 // ------------------------------------------------------------------ wrappers (no hooks needed)
 
@@ -254,6 +259,102 @@ impl Session {
         out
     }
 
+    /// C07: what the candidate getters answer now (None = no list open), and for a phrase list what the
+    /// dictionaries themselves hold for the highlighted symbols (system layers as generated, the user
+    /// layer read from its raw B-tree / tombstones — not through the editor or `Layered`)
+    fn cand_view(&self, snap: &str) -> Option<CandView> {
+        if !self.ed.is_selecting() {
+            return None;
+        }
+        let ed = &self.ed;
+        let got = catch_unwind(AssertUnwindSafe(|| {
+            (
+                ed.all_candidates().unwrap_or_default(),
+                ed.paginated_candidates().unwrap_or_default(),
+                ed.total_page().unwrap_or(usize::MAX),
+                ed.current_page_no().unwrap_or(usize::MAX),
+            )
+        }));
+        let mut v = CandView { per: ed.editor_options().candidates_per_page, ..Default::default() };
+        match got {
+            Ok((all, paginated, total_page, page_no)) => {
+                v.all = all;
+                v.paginated = paginated;
+                v.total_page = total_page;
+                v.page_no = page_no;
+            }
+            Err(_) => v.panicked = true,
+        }
+        if let Some(info) = step::sel_info(snap) {
+            if info.kind == 'P' && info.begin <= info.end && info.end <= ed.symbols().len() {
+                let range = &ed.symbols()[info.begin..info.end];
+                let key: Vec<Syllable> = range.iter().map_while(|s| s.to_syllable()).collect();
+                let mut e = Expect {
+                    all_syllables: key.len() == range.len(),
+                    range_len: range.len(),
+                    key: key.clone(),
+                    ..Default::default()
+                };
+                e.own = self.held_for(&key);
+                if range.len() == 1 && key.len() == 1 {
+                    let alts: Vec<Syllable> = self.lay.borrow().alt_syllables(key[0]).to_vec();
+                    for a in alts {
+                        e.alt.extend(self.held_for(&[a]));
+                    }
+                }
+                // is there a longer range `init` would have had to offer first?
+                let syms = ed.symbols();
+                let is_syl = |i: usize| syms.get(i).is_some_and(|s| s.is_syllable());
+                let key_of = |b: usize, e: usize| -> Vec<Syllable> { syms[b..e].iter().filter_map(|s| s.to_syllable()).collect() };
+                if info.forward {
+                    let mut limit = info.orig.min(syms.len());
+                    while limit < syms.len() && is_syl(limit) {
+                        limit += 1;
+                    }
+                    for e2 in info.end + 1..=limit {
+                        if (info.begin..e2).all(is_syl) && !self.held_for(&key_of(info.begin, e2)).is_empty() {
+                            e.longer = Some((info.begin, e2));
+                        }
+                    }
+                } else {
+                    let sel_ends: Vec<usize> = step::selections(snap).iter().map(|s| s.1).collect();
+                    let gaps = step::gaps(snap);
+                    let mut lo = info.orig.min(syms.len());
+                    while lo > 0 && !sel_ends.contains(&lo) && gaps.get(lo) != Some(&'K') && is_syl(lo - 1) {
+                        lo -= 1;
+                    }
+                    for b2 in lo..info.begin {
+                        if (b2..info.end).all(is_syl) && !self.held_for(&key_of(b2, info.end)).is_empty() {
+                            e.longer = Some((b2, info.end));
+                        }
+                    }
+                }
+                v.expect = Some(e);
+            }
+        }
+        Some(v)
+    }
+
+    /// every phrase some layer holds for exactly `key` (user layer: pending entries minus tombstones)
+    fn held_for(&self, key: &[Syllable]) -> Vec<String> {
+        let mut out: Vec<String> = vec![];
+        for layer in &self.sys {
+            for (k, p, _) in layer {
+                if k.as_slice() == key && !out.contains(p) {
+                    out.push(p.clone());
+                }
+            }
+        }
+        // SAFETY: see dict_s
+        let (btree, grave, _, _, _) = unsafe { (*self.user).verif_snapshot() };
+        for (k, p, _, _) in &btree {
+            if k.as_slice() == key && !grave.iter().any(|(gk, gp)| gk.as_slice() == key && gp == p) && !out.contains(p) {
+                out.push(p.clone());
+            }
+        }
+        out
+    }
+
     fn conv_answers(&self) -> String {
         let log = self.conv_log.borrow();
         let mut out = format!("C {}", log.len());
@@ -333,9 +434,9 @@ fn syls_s(k: &[Syllable]) -> String {
 // ------------------------------------------------------------------ generation
 
 /// a small pool of syllables with their Standard-layout key sequences
-fn pool() -> Vec<(Syllable, Vec<KeyCode>)> {
+fn pool(focus: bool) -> Vec<(Syllable, Vec<KeyCode>)> {
     use KeyCode::*;
-    let seqs: Vec<Vec<KeyCode>> = vec![
+    let mut seqs: Vec<Vec<KeyCode>> = vec![
         vec![H, K, N4],       // ㄘㄜˋ
         vec![G, N4],          // ㄕˋ
         vec![J, U, N3],       // ㄨㄛˇ? (j=ㄨ u=ㄧ) whatever the layout says
@@ -349,6 +450,11 @@ fn pool() -> Vec<(Syllable, Vec<KeyCode>)> {
         vec![D, J, Slash, Space],
         vec![Y, J, N4],
     ];
+    if focus {
+        // C07 profile: toneless one-letter syllables that have alternatives in the Hsu / ET26 tables
+        // (`alt_syllables`), together with those alternatives
+        seqs.extend(vec![vec![H, Space], vec![O, Space], vec![N5, Space], vec![R, Space], vec![G, Space], vec![V, Space]]);
+    }
     let kb = Qwerty;
     let mut out = vec![];
     for seq in seqs {
@@ -396,8 +502,18 @@ fn gen_layer(rng: &mut Rng, pool: &[(Syllable, Vec<KeyCode>)], words_for_all: bo
     layer
 }
 
-fn gen_opts(rng: &mut Rng, base: &EditorOptions, engine_kind: u8) -> EditorOptions {
+fn gen_opts(rng: &mut Rng, base: &EditorOptions, engine_kind: u8, focus: bool) -> EditorOptions {
     let mut o = *base;
+    if focus && rng.chance(1, 2) {
+        // C07 profile: small pages (many pages per list), choice direction, Space as a selection key
+        match rng.below(6) {
+            0 | 1 | 2 => o.candidates_per_page = 1 + rng.below(3) as usize,
+            3 => o.candidates_per_page = 1 + rng.below(10) as usize,
+            4 => o.phrase_choice_rearward = !o.phrase_choice_rearward,
+            _ => o.space_is_select_key = !o.space_is_select_key,
+        }
+        return o;
+    }
     match rng.below(16) {
         0 => o.easy_symbol_input = !o.easy_symbol_input,
         1 => o.esc_clear_all_buffer = !o.esc_clear_all_buffer,
@@ -424,7 +540,7 @@ fn gen_opts(rng: &mut Rng, base: &EditorOptions, engine_kind: u8) -> EditorOptio
     o
 }
 
-fn gen_op(rng: &mut Rng, s: &Session, pool: &[(Syllable, Vec<KeyCode>)], pending: &mut Vec<Op>, uniform: bool) -> Op {
+fn gen_op(rng: &mut Rng, s: &Session, pool: &[(Syllable, Vec<KeyCode>)], pending: &mut Vec<Op>, uniform: bool, focus: bool, cand: Option<&CandView>) -> Op {
     use KeyCode::*;
     if let Some(op) = pending.pop() {
         return op;
@@ -441,13 +557,132 @@ fn gen_op(rng: &mut Rng, s: &Session, pool: &[(Syllable, Vec<KeyCode>)], pending
         return Op::Key(code, m);
     }
     let selecting = s.ed.is_selecting();
-    let w: Vec<u32> = if selecting {
+    let w: Vec<u32> = if focus && selecting {
         //   syl sym  nav del  open page choose tab commit mode opts api  learn reset jump
+        vec![1, 1, 1, 1, 1, 18, 9, 0, 0, 1, 3, 3, 2, 0, 8]
+    } else if focus {
+        vec![30, 9, 12, 3, 22, 1, 2, 3, 1, 1, 3, 3, 2, 0, 0]
+    } else if selecting {
         vec![2, 1, 2, 1, 1, 14, 10, 0, 1, 1, 2, 6, 1, 1, 4]
     } else {
         vec![30, 8, 10, 6, 10, 1, 2, 5, 3, 3, 4, 4, 3, 1, 0]
     };
-    match rng.weighted(&w) {
+    let choice = rng.weighted(&w);
+    if focus {
+        // C07 profile: other ways to open a list, symbols with / without a special-symbol category,
+        // small choice indices, removal of a candidate that is on display
+        match choice {
+            0 if rng.chance(1, 3) => {
+                // type all syllables of a phrase some system layer knows (multi-syllable ranges)
+                let known: Vec<&(Vec<Syllable>, String, u32)> = s.sys.iter().flatten().filter(|e| e.0.len() > 1).collect();
+                if !known.is_empty() {
+                    let e = *rng.pick(&known);
+                    let mut seq: Vec<Op> = vec![];
+                    for syl in &e.0 {
+                        if let Some((_, keys)) = pool.iter().find(|p| p.0 == *syl) {
+                            seq.extend(keys.iter().map(|k| Op::Key(*k, plain)));
+                        }
+                    }
+                    seq.reverse();
+                    if let Some(first) = seq.pop() {
+                        pending.extend(seq);
+                        return first;
+                    }
+                }
+            }
+            11 if rng.chance(1, 3) => return Op::SetLayout(*rng.pick(&[1u8, 5, 0, 1, 5])),
+            1 if rng.chance(1, 2) => {
+                // a punctuation mark (has a special-symbol category) or a digit / letter without one
+                // (NumLock inserts the key's own character), often followed by Down
+                let op = if rng.chance(1, 2) {
+                    Op::Key(*rng.pick(&[Comma, Dot, Slash, LBracket, Quote, SColon]), if rng.chance(1, 2) { Modifiers::shift() } else { plain })
+                } else {
+                    Op::Key(*rng.pick(&[N1, N2, N7, N0, Minus, Equal]), Modifiers::numlock())
+                };
+                if rng.chance(1, 2) {
+                    pending.push(Op::Key(Down, plain));
+                }
+                return op;
+            }
+            4 if !selecting && rng.chance(1, 4) => {
+                // a whole scenario: type a known multi-syllable phrase, open its list, shrink the range,
+                // page forward in the shorter list, move the range again (API jump or j / k)
+                let known: Vec<&(Vec<Syllable>, String, u32)> = s.sys.iter().flatten().filter(|e| e.0.len() > 1).collect();
+                if !known.is_empty() {
+                    let e = *rng.pick(&known);
+                    let mut seq: Vec<Op> = vec![];
+                    for syl in &e.0 {
+                        if let Some((_, keys)) = pool.iter().find(|p| p.0 == *syl) {
+                            seq.extend(keys.iter().map(|k| Op::Key(*k, plain)));
+                        }
+                    }
+                    if !s.ed.editor_options().phrase_choice_rearward {
+                        // forward choice looks right of the cursor: go back to the phrase's first syllable
+                        for _ in 0..e.0.len() {
+                            seq.push(Op::Key(Left, plain));
+                        }
+                    }
+                    seq.push(if rng.chance(1, 2) { Op::StartSel } else { Op::Key(Down, plain) });
+                    seq.push(if rng.chance(1, 2) { Op::Jump(2) } else { Op::Key(Down, plain) });
+                    for _ in 0..1 + rng.below(2) {
+                        seq.push(Op::Key(*rng.pick(&[Right, PageDown, Left]), plain));
+                    }
+                    seq.push(match rng.below(6) {
+                        0 | 1 | 2 => Op::Jump(3),
+                        3 => Op::Jump(rng.below(2) as u8),
+                        4 => Op::Key(J, plain),
+                        _ => Op::Key(K, plain),
+                    });
+                    seq.reverse();
+                    let first = seq.pop().unwrap();
+                    pending.extend(seq);
+                    return first;
+                }
+            }
+            4 => {
+                return match rng.below(8) {
+                    0 => Op::StartSel,
+                    1 => Op::Key(Grave, plain),
+                    2 => Op::Key(*rng.pick(&[N1, N0]), Modifiers::control()),
+                    3 => Op::Key(Space, plain),
+                    _ => Op::Key(Down, plain),
+                };
+            }
+            6 if selecting => {
+                let n = *rng.pick(&[0usize, 0, 1, 1, 2, 3, 4, 6, 9, 11, 30, usize::MAX]);
+                return if rng.chance(1, 2) || n > 9 { Op::Select(n) } else { Op::Key(ALL_CODES[1 + n], plain) };
+            }
+            14 if selecting && rng.chance(1, 3) => {
+                // shrink the range, page forward in the shorter list, then move the range again (the page
+                // must restart): jump next / Down x pages, Right / PageDown, then jump prev / first / last / j / k
+                let mut seq: Vec<Op> = vec![if rng.chance(1, 2) { Op::Jump(2) } else { Op::Key(Down, plain) }];
+                for _ in 0..1 + rng.below(2) {
+                    seq.push(Op::Key(*rng.pick(&[Right, PageDown, Left]), plain));
+                }
+                seq.push(match rng.below(6) {
+                    0 | 1 | 2 => Op::Jump(3),
+                    3 => Op::Jump(rng.below(2) as u8),
+                    4 => Op::Key(J, plain),
+                    _ => Op::Key(K, plain),
+                });
+                seq.reverse();
+                let first = seq.pop().unwrap();
+                pending.extend(seq);
+                return first;
+            }
+            12 if selecting => {
+                if let Some(Some(e)) = cand.map(|c| c.expect.as_ref()) {
+                    let c = cand.unwrap();
+                    if !c.all.is_empty() && e.all_syllables {
+                        let p = rng.pick(&c.all).clone();
+                        return if rng.chance(2, 3) { Op::Unlearn(e.key.clone(), p) } else { Op::Learn(e.key.clone(), gen_phrase(rng, e.key.len())) };
+                    }
+                }
+            }
+            _ => {}
+        }
+    }
+    match choice {
         0 => {
             // type a whole syllable (keys queued in reverse)
             let (_, seq) = rng.pick(pool);
@@ -489,7 +724,7 @@ fn gen_op(rng: &mut Rng, s: &Session, pool: &[(Syllable, Vec<KeyCode>)], pending
         9 => {
             if rng.chance(1, 2) { Op::Key(Unknown, Modifiers::capslock()) } else { Op::Key(Space, Modifiers::shift()) }
         }
-        10 => Op::SetOpts(gen_opts(rng, &s.ed.editor_options(), 0)),
+        10 => Op::SetOpts(gen_opts(rng, &s.ed.editor_options(), 0, focus)),
         11 => match rng.below(8) {
             0 => Op::CancelSel,
             1 => Op::Ack,
@@ -560,9 +795,16 @@ fn main() {
     let mut ops_per: u64 = if thorough { 80 } else { 60 };
     let mut c17_queries = false;
     let mut c17_stats = oracle_c17::Stats::new();
+    let mut script_name: Option<String> = None;
+    // `--profile c07`: selection-heavy histories (small pages, rearward choice, symbol lists, jumps)
+    let mut focus = false;
     let mut i = 1;
     while i < args.len() {
         match args[i].as_str() {
+            "--profile" => {
+                focus = args[i + 1] == "c07";
+                i += 1;
+            }
             "--sessions" => {
                 n_sessions = args[i + 1].parse().unwrap();
                 i += 1;
@@ -573,9 +815,18 @@ fn main() {
             }
             // C17: one `edq` record (all getters, compared with the model) per step
             "--queries" => c17_queries = true,
+            "--script" => {
+                // scripted sessions (c18: exhaustive character sweep, c05: limit overshoots) instead of generated ones
+                script_name = Some(args[i + 1].clone());
+                i += 1;
+            }
             _ => {}
         }
         i += 1;
+    }
+    if let Some(name) = &script_name {
+        n_sessions = if name == "c05" { script_c05::n_sessions(thorough) } else { script_c18::n_sessions(thorough) };
+        ops_per = 100_000;
     }
     // panics inside the editor are outcomes, not noise
     std::panic::set_hook(Box::new(|_| {}));
@@ -587,10 +838,11 @@ fn main() {
         out.flush();
         return;
     }
-    let pool = pool();
+    let pool = pool(focus);
     out.stat("pool_syllables", pool.len());
     let kb = Qwerty;
     let (mut n_ops, mut n_panic, mut n_sel_steps, mut n_uniform) = (0u64, 0u64, 0u64, 0u64);
+    let mut n_hang_guard = 0u64;
     let mut state_hist = [0u64; 4];
     let mut beh_hist = [0u64; 4];
 
@@ -633,16 +885,38 @@ fn main() {
         };
         o.lookup_strategy = if engine_kind == 2 { LookupStrategy::FuzzyPartialPrefix } else { LookupStrategy::Standard };
         for _ in 0..rng.below(4) {
-            o = gen_opts(&mut rng, &o, engine_kind);
+            o = gen_opts(&mut rng, &o, engine_kind, focus);
         }
         ed.set_editor_options(o);
         let mut s = Session { ed, lay, conv_log, user: user_ptr, sys, layout_kind };
         let uniform = rng.chance(1, 8);
         let mut pending: Vec<Op> = vec![];
         let mut history: Vec<String> = vec![];
+        // the open candidate list as reported after the previous operation (= before this one)
+        let mut cand_pre: Option<CandView> = None;
 
+        let mut script18 = script_name.as_ref().filter(|n| *n != "c05").map(|_| script_c18::Script::new(sid, thorough));
+        let mut script05 = script_name.as_ref().filter(|n| *n == "c05").map(|_| script_c05::Script::new(sid, thorough));
         for _ in 0..ops_per {
-            let op = gen_op(&mut rng, &s, &pool, &mut pending, uniform);
+            let scripted = match (&mut script18, &mut script05) {
+                (Some(sc), _) => Some(sc.next(&s.ed.verif_snapshot())),
+                (_, Some(sc)) => Some(sc.next(&s.ed.verif_snapshot())),
+                _ => None,
+            };
+            let mut op = match scripted {
+                Some(Some(op)) => op,
+                Some(None) => break,
+                None => gen_op(&mut rng, &s, &pool, &mut pending, uniform, focus, cand_pre.as_ref()),
+            };
+            // `PhraseSelector::next` (Down / Space at the last page) never returns when no range starting
+            // at the highlighted syllable has a phrase any more (a user-only word removed while the list
+            // is open; C01's hang class).  A hang cannot be caught in-process: steer around it.
+            if let Op::Key(KeyCode::Down | KeyCode::Space, _) = op {
+                if s.ed.is_selecting() && s.ed.symbols().iter().filter_map(|x| x.to_syllable()).any(|x| s.held_for(&[x]).is_empty()) {
+                    n_hang_guard += 1;
+                    op = Op::Key(KeyCode::Esc, Modifiers::default());
+                }
+            }
             let ev = match &op {
                 Op::Key(c, m) => Some(kb.map_with_mod(*c, *m)),
                 _ => None,
@@ -725,20 +999,40 @@ fn main() {
                     let post = s.ed.verif_snapshot();
                     let dict_post = s.dict_s();
                     history.push(opstr.clone());
+                    let cand_post = s.cand_view(&post);
                     let step = Step {
                         op: &opstr, key: ev, pre: &pre, post: &post, ret: &ret,
                         dict_pre: &dict_pre, dict_post: &dict_post, history: &history, seed, sid,
+                        cand_pre: cand_pre.as_ref(), cand_post: cand_post.as_ref(),
                     };
                     // the properties, evaluated directly on the real editor (one module per property)
+                    oracle_c05::check(&mut out, &step);
                     oracle_c06::check(&mut out, &step);
                     oracle_c17::after_step(&mut out, &step, &s, c17_queries, &mut c17_stats);
+                    oracle_c07::check(&mut out, &step);
+                    oracle_c18::check(&mut out, &step);
                     out.rec(&format!(
                         "ed {} | {} | {} | {} {} => ok | {} | {} | {}",
                         opstr, pre, dict_pre, lay_ans, conv_ans, post, ret, dict_post
                     ));
+                    // C07: the candidate getters themselves are a (pure) operation the model recomputes
+                    if let Some(c) = &cand_post {
+                        out.rec(&format!(
+                            "ed cands | {} | {} | {} C 0 => ok | {} | {} | {}",
+                            post, dict_post, s.layout_answers(None), post, step::cand_token(c), dict_post
+                        ));
+                    }
+                    cand_pre = cand_post;
                 }
                 Err(_) => {
                     n_panic += 1;
+                    history.push(opstr.clone());
+                    let step = Step {
+                        op: &opstr, key: ev, pre: &pre, post: &pre, ret: "panic",
+                        dict_pre: &dict_pre, dict_post: &dict_pre, history: &history, seed, sid,
+                        cand_pre: cand_pre.as_ref(), cand_post: None,
+                    };
+                    oracle_c07::check_panic(&mut out, &step);
                     out.rec(&format!(
                         "ed {} | {} | {} | {} {} => panic",
                         opstr, pre, dict_pre, lay_ans, conv_ans
@@ -751,6 +1045,8 @@ fn main() {
         // the Editor owns the user dictionary; dropping it here keeps `user_ptr` valid above
         drop(s);
     }
+    oracle_c05::finish(&mut out);
+    oracle_c18::finish(&mut out);
     out.stat("sessions", n_sessions);
     out.stat("ops", n_ops);
     out.stat("panics", n_panic);
@@ -765,5 +1061,8 @@ fn main() {
     out.stat("beh_bell", beh_hist[2]);
     out.stat("beh_absorb", beh_hist[3]);
     c17_stats.print(&mut out);
+    out.stat("profile_c07", focus as u8);
+    out.stat("down_keys_replaced_by_hang_guard", n_hang_guard);
+    oracle_c07::finish(&mut out);
     out.flush();
 }
